@@ -5,16 +5,19 @@
 (*   [k |-> "attr",  v |-> <<n>>]      n = SGR attribute number (bold 1, dim 2, italic 3,  *)
 (*                                     ul 4, blink 5, reverse 7, hidden 8, strike 9)       *)
 (*   [k |-> "color", v |-> colour]     <<n>> palette index, <<r,g,b>> direct colour,        *)
-(*                                     <<>> for `normal`                                    *)
+(*                                     <<>> for `normal`, <<Syntax>> for `syntax` (only as   *)
+(*                                     the first colour: the foreground comes from syntax    *)
+(*                                     highlighting)                                         *)
 (*   [k |-> "flag",  v |-> <<>>]       omit / raw / words only meaningful elsewhere         *)
 (* Obs: Meaning is the declarative reading; Impl: Slots is the word-by-word slot machine   *)
 (* of parse_ansi_term_style.  MC_Style checks they agree on every word sequence in bound.  *)
 EXTENDS Naturals, Sequences, FiniteSets
 
+Syntax == 1000
 Colours(ws) == SelectSeq(ws, LAMBDA w : w.k = "color")
 Meaning(ws) ==
   LET cs == Colours(ws) IN
-  [ok |-> Len(cs) <= 2,
+  [ok |-> Len(cs) <= 2 /\ (Len(cs) = 2 => cs[2].v # <<Syntax>>),
    fg |-> IF Len(cs) >= 1 THEN cs[1].v ELSE <<>>,
    bg |-> IF Len(cs) >= 2 THEN cs[2].v ELSE <<>>,
    at |-> {ws[i].v[1] : i \in {j \in DOMAIN ws : ws[j].k = "attr"}}]
@@ -27,7 +30,8 @@ Slots(ws, i, st) ==
     IF w.k = "attr" THEN Slots(ws, i + 1, [st EXCEPT !.at = @ \cup {w.v[1]}])
     ELSE IF w.k = "flag" THEN Slots(ws, i + 1, st)
     ELSE IF ~st.seenFg THEN Slots(ws, i + 1, [st EXCEPT !.fg = w.v, !.seenFg = TRUE])
-    ELSE IF ~st.seenBg THEN Slots(ws, i + 1, [st EXCEPT !.bg = w.v, !.seenBg = TRUE])
+    ELSE IF ~st.seenBg THEN (IF w.v = <<Syntax>> THEN [st EXCEPT !.ok = FALSE]
+                             ELSE Slots(ws, i + 1, [st EXCEPT !.bg = w.v, !.seenBg = TRUE]))
     ELSE [st EXCEPT !.ok = FALSE]
 Parse(ws) == LET r == Slots(ws, 1, [ok |-> TRUE, fg |-> <<>>, bg |-> <<>>, at |-> {}, seenFg |-> FALSE, seenBg |-> FALSE])
              IN [ok |-> r.ok, fg |-> IF r.ok THEN r.fg ELSE Meaning(ws).fg, bg |-> IF r.ok THEN r.bg ELSE Meaning(ws).bg, at |-> IF r.ok THEN r.at ELSE Meaning(ws).at]
